@@ -3,3 +3,6 @@ Claimed properties carry their own CLAIM dict in harness/props/<id>.py."""
 
 PENDING_REASON = "check not built yet (DESIGN.md section 3 describes the planned model and theorems)"
 NOT_APPLICABLE = {}
+
+# properties whose check has been integrated and verified quiet on the unchanged tree (seeds 0-3 + thorough)
+READY = ["C04", "C05", "C10", "C11", "C12", "C15", "C20", "C22", "C23", "C24", "C27", "C29"]
